@@ -46,6 +46,19 @@ Theorem C04_table_recovered : forall t cs, full_lattice t cs -> wf t ->
 Proof. exact table_recovered. Qed.
 Print Assumptions C04_table_recovered.
 
+(* ... the same through the other order oracles of the API: leq_elements / <= on the concept
+   objects (both are the concept comparison leq_i, C03) and descendants() *)
+Theorem C04_table_recovered_by_leq : forall t cs, full_lattice t cs -> wf t ->
+  rebuild_rel (height t) (width t) (obj_labels cs) (attr_labels cs) (leq_i cs) = t.
+Proof. exact table_recovered_leq. Qed.
+Print Assumptions C04_table_recovered_by_leq.
+
+Theorem C04_table_recovered_by_descendants : forall t cs, full_lattice t cs -> wf t ->
+  rebuild_rel (height t) (width t) (obj_labels cs) (attr_labels cs)
+              (fun a b => Nat.eqb a b || mem a (nth b (desc_lists cs) [])) = t.
+Proof. exact table_recovered_desc. Qed.
+Print Assumptions C04_table_recovered_by_descendants.
+
 (* non-vacuity: a table with a duplicated row (objects 0 and 1 share a node), an unlabelled
    top and bottom *)
 Definition ex_t : table :=
